@@ -130,6 +130,15 @@ def random_item(rng):
         return ("s", intro, rng.randrange(12))
     if r < 0.76:
         return ("p", intro, rng.randrange(18), rng.choice([None, rng.randrange(16), rng.randrange(16), 15]))
+    if r < 0.66:
+        # reports and mode-like sequences real terminals send that are NOT keys: bracketed-paste brackets, focus in/out,
+        # device attributes, status reports, modifyOtherKeys - whatever they are, the items after them decode as always
+        for _ in range(20):
+            params, final = rng.choice([([200], 0x7E), ([201], 0x7E), ([200], 0x7E), (None, 0x49), (None, 0x4F), ([0], 0x6E), ([3], 0x6E),
+                                        ([1, 2], 0x63), ([62, 1, 6], 0x63), ([27, 5, 65], 0x7E), ([27, 5, 133], 0x75), ([97, 5], 0x75),
+                                        ([8, 24, 80], 0x74), ([2026, 2], 0x79), ([1049], 0x68), ([1049], 0x6C)])
+            if q_final_ok(final, params or []):
+                return ("q", intro, rng.choice("nnq"), params, final)
     if r < 0.90:
         n = rng.choice([0, 0, 1, 1, 2, 3, rng.randrange(8), 15, 16, 17, 18, 33, 64, 100])
         params = [rng.choice([None, 0, 1, 2, 7, 16, 22, 25, 200, 1000, 2**31, 2**32 + 11, 10**20 - 1, rng.randrange(100)])
@@ -172,6 +181,16 @@ def chunkings(rng, data, how):
 
 
 OUTPUT_OPS = ["@sz.10.5", "@sz.80.24", "@sz.1.1", "@we", "@mv.1.1", "@er", "@hc"]
+
+
+def with_setup(rng, run):
+    """the same run on a terminal with non-default behaviour flags and/or a client that keeps several reads posted"""
+    pre = []
+    if rng.random() < 0.7:
+        pre.append("@bh.%d" % rng.choice([1, 2, 3, 2, 31, 4095, rng.randrange(4096)]))
+    if rng.random() < 0.6:
+        pre.append("@rw.%d" % rng.choice([2, 2, 3, 4, 8]))
+    return ",".join(pre + [run]) if pre else run
 
 
 def with_ops(rng, run, p=0.4):
